@@ -708,6 +708,69 @@ theorem C17_fifo_read (s : Sup) (hi : Inv s) (tid : Nat) (r : Report) (b : List 
             simp only [this, Bool.false_eq_true, if_false, List.filter_cons, ih]
       exact this s.waiting
 
+/-! ### order on a connection: per lane -/
+
+def lane (b : Bool) (w : List (Bool × Nat)) : List Nat := (w.filter (fun x => x.1 == b)).map (·.2)
+
+theorem lane_append (b : Bool) (w v : List (Bool × Nat)) : lane b (w ++ v) = lane b w ++ lane b v := by
+  simp [lane, List.filter_append]
+
+theorem sentPrio_append (a b : List CLabel) : sentPrio (a ++ b) = sentPrio a ++ sentPrio b := by
+  induction a with
+  | nil => rfl
+  | cons x r ih => cases x <;> simp [sentPrio, ih]
+
+theorem sentNorm_append (a b : List CLabel) : sentNorm (a ++ b) = sentNorm a ++ sentNorm b := by
+  induction a with
+  | nil => rfl
+  | cons x r ih => cases x <;> simp [sentNorm, ih]
+
+/-- **In order per connection, lane by lane**: whatever the interleaving of senders and of the sender routine's
+choices, what has been written to the socket from a lane, followed by what still waits in that lane, is exactly what
+was sent on that lane, in the order it was sent — nothing lost, duplicated or reordered within a lane (a priority
+message may overtake normal ones: that is the design of the two lanes). -/
+theorem C17_connection_order_per_lane (ls : List CLabel) :
+    lane true (Conn.run {} ls).wire ++ (Conn.run {} ls).prio = sentPrio ls ∧
+    lane false (Conn.run {} ls).wire ++ (Conn.run {} ls).norm = sentNorm ls := by
+  have key : ∀ (ls2 ls1 : List CLabel) (c : Conn),
+      (lane true c.wire ++ c.prio = sentPrio ls1 ∧ lane false c.wire ++ c.norm = sentNorm ls1) →
+      (lane true (c.run ls2).wire ++ (c.run ls2).prio = sentPrio (ls1 ++ ls2) ∧
+       lane false (c.run ls2).wire ++ (c.run ls2).norm = sentNorm (ls1 ++ ls2)) := by
+    intro ls2
+    induction ls2 with
+    | nil => intro ls1 c h; simpa [Conn.run] using h
+    | cons l r ih =>
+      intro ls1 c h
+      have hstep : lane true (c.step l).wire ++ (c.step l).prio = sentPrio (ls1 ++ [l]) ∧
+          lane false (c.step l).wire ++ (c.step l).norm = sentNorm (ls1 ++ [l]) := by
+        rw [sentPrio_append, sentNorm_append, ← h.1, ← h.2]
+        cases l with
+        | sendPrio m => simp [Conn.step, sentPrio, sentNorm]
+        | sendNorm m => simp [Conn.step, sentPrio, sentNorm]
+        | pump pn =>
+          simp only [Conn.step, sentPrio, sentNorm, List.append_nil]
+          cases hp : c.prio with
+          | nil =>
+            cases hn : c.norm with
+            | nil => simp [hp, hn]
+            | cons n ns => simp [lane_append, lane, hp, hn]
+          | cons p ps =>
+            cases hn : c.norm with
+            | nil => simp [lane_append, lane, hp, hn]
+            | cons n ns =>
+              cases pn <;> simp [lane_append, lane, hp, hn]
+      have := ih (ls1 ++ [l]) (c.step l) hstep
+      simpa [Conn.run, List.append_assoc] using this
+  have := key ls [] {} ⟨by simp [lane, sentPrio], by simp [lane, sentNorm]⟩
+  simpa using this
+
+/-- the sender routine prefers the priority lane: with both lanes non-empty and no race in the inner `select`, the
+priority message goes first -/
+theorem C17_priority_first (c : Conn) (p : Nat) (ps : List Nat) (hp : c.prio = p :: ps) :
+    (c.step (.pump false)).wire = c.wire ++ [(true, p)] := by
+  simp only [Conn.step, hp]
+  cases c.norm <;> rfl
+
 /-! ### the premises are satisfiable -/
 
 example :
